@@ -722,6 +722,17 @@ def check_sub_lag_stops(u):
     e = match_delim(msk, k)
     if not re.search(r"\breturn\s+Err\b", msk[k:e]):
         failures.append((obligations[1], _line(src, k), "a failed try_send on the catch-up buffer does not end the buffering task with an error"))
+    # … for EVERY failure of try_send (Full as well as Closed): the pattern bound to its result has to be a catch-all
+    hdr_start = msk.rfind("if", o, o + m.start())
+    seg_end = o + m.start()
+    errs = [hdr_start + mm.start() for mm in re.finditer(r"\bErr\s*\(", msk[hdr_start:seg_end])]
+    eo = errs[-1] if errs else -1
+    if eo >= 0:
+        po = msk.index("(", eo)
+        pc = match_delim(msk, po)
+        pat = re.sub(r"\s+", "", msk[po + 1:pc])
+        if re.match(r"\s*=\s*queue_tx", msk[pc + 1:]) and not re.fullmatch(r"_\w*|[a-z]\w*", pat):
+            failures.append((obligations[1], _line(src, eo), "only `Err(%s)` of try_send ends the buffering task: a FULL buffer now drops the live event silently and buffering carries on" % pat))
     samples.append("%s:%d try_send failure returns Err" % (file, _line(src, k)))
     m = re.search(r"match\s+queue_task\s*\.\s*await\s*\{", msk[o:c])
     if not m:
@@ -997,12 +1008,17 @@ def check_schema_atomic(u):
     obligations.append("persisted-schema-rows-of-submitted-tables-are-replaced-wholesale")
     from .lex import iter_string_literals
     lits = [(a, t) for (a, t) in iter_string_literals(src) if o <= a < c and "__corro_schema" in t]
-    dels = [a for (a, t) in lits if re.search(r"^\s*DELETE\s+FROM\s+__corro_schema\s+WHERE\s+tbl_name\s*=\s*\?", t, re.I)]
-    inss = [a for (a, t) in lits if re.search(r"^\s*INSERT\s+(OR\s+\w+\s+)?INTO\s+__corro_schema\s+SELECT\b.*\bFROM\s+sqlite_schema\s+WHERE\s+tbl_name\s*=\s*\?", t, re.I | re.S)]
+    dels = [(a, re.search(r"WHERE\s+(\w+)\s*=\s*\?", t, re.I)) for (a, t) in lits if re.search(r"^\s*DELETE\s+FROM\s+__corro_schema\b", t, re.I)]
+    inss = [(a, re.search(r"\bWHERE\s+(\w+)\s*=\s*\?", t, re.I)) for (a, t) in lits if re.search(r"^\s*INSERT\s+(OR\s+\w+\s+)?INTO\s+__corro_schema\s+SELECT\b.*\bFROM\s+sqlite_schema\b", t, re.I | re.S)]
     if not inss:
         raise LostAnchor("execute_schema: the __corro_schema refresh INSERT … SELECT … FROM sqlite_schema was not found")
-    if not dels or not (p_apply < dels[0] < inss[0] < (p_commit or c)):
-        failures.append((obligations[-1], _line(src, inss[0]), "the rows of a submitted table are not deleted from __corro_schema before the current ones are copied (between apply_schema and commit): rows of dropped indexes survive and are reloaded after a restart"))
+    if not dels or not (p_apply < dels[0][0] < inss[0][0] < (p_commit or c)):
+        failures.append((obligations[-1], _line(src, inss[0][0]), "the rows of a submitted table are not deleted from __corro_schema before the current ones are copied (between apply_schema and commit): rows of dropped indexes survive and are reloaded after a restart"))
+    else:
+        dk = dels[0][1].group(1).lower() if dels[0][1] else None
+        ik = inss[0][1].group(1).lower() if inss[0][1] else None
+        if dk != "tbl_name" or ik != "tbl_name":
+            failures.append((obligations[-1], _line(src, inss[0][0]), "rows are deleted by `%s = ?` and re-copied by `%s = ?`: both have to select the submitted table's own rows and its indexes (`tbl_name = ?`), otherwise index rows are lost or left behind" % (dk, ik)))
     return obligations, failures, ["%s:%d lock < clone+insert < constrain? < immediate_transaction? < apply_schema? < DELETE+INSERT __corro_schema < commit? < apply_res? < *schema_write = new_schema" % (file, _line(src, p_lock))]
 
 
